@@ -1,4 +1,4 @@
 CONSTANTS MaxAttempts = 8 Family = "full" Tier = "quick"
 INIT Init
 NEXT Next
-INVARIANTS Terminates DoneStructural Emit
+INVARIANTS Terminates DoneStructural DoneAllLawsWithoutRestart Emit
